@@ -6,8 +6,7 @@ Section Commit.
   Variable V : list id.
   Hypothesis V_nodup : NoDup V.
 
-  Notation inv1 := (inv1 V).
-  Notation inv3 := (inv3 V).
+  Notation inv3b := (inv3b V).
   Notation step := (step V).
 
   (* ---- handling an AE in state n (no reference to n') ---- *)
@@ -30,32 +29,20 @@ Section Commit.
     rewrite Hview. apply agree_firstn. lia.
   Qed.
 
-  (* the committed prefix of the receiver agrees with the sender's leader log *)
-  Lemma hcommit_agrees_leader n w T :
-    inv1 n -> inv2 n -> inv3 n -> term (nodes n w) = T -> lead n T <> None ->
-    agree (hcommit (nodes n w)) (log (nodes n w)) (llog n T) /\
-    hcommit (nodes n w) <= length (llog n T).
-  Proof.
-    intros H1 H2 H3 HT Hl.
-    pose proof (i_hcommit V n H3 w) as Hc. rewrite HT in Hc.
-    pose proof (cprefix_llog V n T _ _ H1 H2 H3 Hc Hl) as Hag.
-    split; [exact Hag|]. eapply agree_len; [exact Hag|]. apply (i_commit_bounds V n H3 w).
-  Qed.
-
   (* an acknowledged prefix survives an AE of the node's term, or the AE's leader is to blame *)
   Lemma ae_overwrite n w T ldr prev pt ents lc l' t k :
-    inv1 n -> inv2 n -> inv3 n ->
+    inv2 n -> inv3a n ->
     In (AE T ldr prev pt ents lc) (msgs n) -> term (nodes n w) = T ->
     term_at (log (nodes n w)) prev = pt ->
     try_append (log (nodes n w)) (commit (nodes n w)) prev ents = Some l' ->
     acked n t w k ->
     agree k l' (llog n t) \/ blamed n t k T.
   Proof.
-    intros H1 H2 H3 Hin HT Hpt Hta Hack.
-    pose proof (acked_len n t w k (i_ack_le V n H3) Hack) as Hk.
-    pose proof (acked_term n t w k (i_ack_le V n H3) Hack) as Hle. rewrite HT in Hle.
+    intros H2 H3 Hin HT Hpt Hta Hack.
+    pose proof (acked_len n t w k (i_ack_le n H3) Hack) as Hk.
+    pose proof (acked_term n t w k (i_ack_le n H3) Hack) as Hle. rewrite HT in Hle.
     destruct (i_ae n H2 _ _ _ _ _ _ Hin) as (Hlead & _).
-    destruct (i_ack_node V n H3 t w k Hack) as [Hag|Hb]; [|right; now rewrite <- HT].
+    destruct (i_ack_node n H3 t w k Hack) as [Hag|Hb]; [|right; now rewrite <- HT].
     destruct (Nat.eq_dec t T) as [->|Hne].
     - left. apply (handle_ae_keeps n T ldr prev pt ents lc _ _ l' k H2 Hin (i_log_ok n H2 w) Hpt Hta);
         assumption.
@@ -74,19 +61,19 @@ Section Commit.
   (* ---- which acknowledgements are new, and why they are sound ---- *)
 
   Lemma new_ack_sound n l n' t w ldr m :
-    inv1 n -> inv2 n -> inv3 n -> step n l n' ->
+    inv2 n -> inv3a n -> agl n -> step n l n' ->
     In (Ack t w ldr m) (msgs n') ->
     In (Ack t w ldr m) (msgs n) \/
     (term (nodes n w) = t /\ term (nodes n' w) = t /\ m <= length (llog n' t) /\
      agree m (log (nodes n' w)) (llog n' t)).
   Proof.
-    intros H1 H2 H3 Hstep Hin.
+    intros H2 H3 Hagl Hstep Hin.
     inv_step Hstep; msg_cases Hin; auto; right; rewrite ?upd_eq; cbn [term log].
     - (* stale AE: answer with commit *)
       match goal with Hae : In (AE _ _ _ _ _ _) _ |- _ =>
         destruct (i_ae n H2 _ _ _ _ _ _ Hae) as (Hlead & _) end.
-      destruct (hcommit_agrees_leader n w _ H1 H2 H3 eq_refl Hlead) as (Hag & Hlen).
-      destruct (i_commit_bounds V n H3 w) as (Hc & _).
+      destruct (Hagl w _ eq_refl Hlead) as (Hag & Hlen).
+      destruct (i_commit_bounds n H3 w) as (Hc & _).
       repeat split; auto; [lia|]. eapply agree_le; eauto.
     - (* AE handled *)
       match goal with Hae : In (AE _ _ _ _ _ _) _, Hta : try_append _ _ _ _ = _ |- _ =>
@@ -150,17 +137,17 @@ Section Commit.
   (* ---- the election argument, in state n ---- *)
 
   Lemma elect_core n i w vl t k :
-    inv1 n -> inv2 n -> inv3 n ->
+    inv2 n -> inv3a n ->
     role (nodes n i) = Candidate -> lead n (term (nodes n i)) = None ->
     In (Vote (term (nodes n i)) w i vl) (msgs n) ->
     t < term (nodes n i) -> 1 <= k -> acked n t w k -> term_at (llog n t) k = t ->
     (agree k (log (nodes n i)) (llog n t) /\ k <= length (log (nodes n i))) \/
     blamed n t k (term (nodes n i) - 1).
   Proof.
-    intros H1 H2 H3 Hrole Hnone Hvote Hlt Hk Hack Hterm.
+    intros H2 H3a Hrole Hnone Hvote Hlt Hk Hack Hterm.
     set (L := log (nodes n i)) in *. set (T0 := term (nodes n i)) in *.
-    pose proof (acked_len n t w k (i_ack_le V n H3) Hack) as Hklen.
-    destruct (i_vote_pair V n H3 T0 w i vl t k Hvote Hack Hlt) as [Hag|Hb].
+    pose proof (acked_len n t w k (i_ack_le n H3a) Hack) as Hklen.
+    destruct (i_vote_pair n H3a T0 w i vl t k Hvote Hack Hlt) as [Hag|Hb].
     2:{ right. destruct Hb as (U & HU & HlU & Hna). exists U. split; [|split; assumption].
         assert (U <> T0) by (intros ->; contradiction). lia. }
     assert (Hkvl : k <= length vl).
@@ -170,8 +157,8 @@ Section Commit.
     assert (Ht1 : 1 <= t).
     { destruct (term_at_In (llog n t) k) as (e & He & Hte); [lia|].
       pose proof (i_llog_terms n H2 t e He). lia. }
-    destruct (i_vote_utd V n H3 _ _ _ _ Hvote) as (li & lt & Hrv & Hutd).
-    destruct (i_rv V n H3 _ _ _ _ Hrv) as (_ & Hrv2).
+    destruct (i_vote_utd n H3a _ _ _ _ Hvote) as (li & lt & Hrv & Hutd).
+    destruct (i_rv n H3a _ _ _ _ Hrv) as (_ & Hrv2).
     destruct (Hrv2 eq_refl Hrole) as (-> & ->). fold L in Hutd.
     pose proof (i_vote_log_ok n H2 _ _ _ _ Hvote) as Hvok.
     pose proof (log_ok_sorted n vl (i_llog_sorted n H2) Hvok) as Hvs.
@@ -227,26 +214,28 @@ Section Commit.
       eapply agree_trans; [eapply agree_le; [exact HLv | exact Hkvl]|]. exact Hag.
   Qed.
 
-  (* ---- preservation ---- *)
+  (* ---- preservation: the quorum-free part ---- *)
 
-  Lemma I_ack_le_step n l n' : inv1 n -> inv2 n -> inv3 n -> step n l n' -> I_ack_le n'.
+  Lemma I_ack_le_step n l n' :
+    inv1 n -> inv2 n -> inv3a n -> agl n -> fresh n l -> step n l n' -> I_ack_le n'.
   Proof.
-    intros H1 H2 H3 Hstep t w ldr m Hin.
-    pose proof (step_gext V V_nodup n l n' H1 H2 Hstep) as Hg.
-    destruct (new_ack_sound n l n' t w ldr m H1 H2 H3 Hstep Hin) as [Hold|(_ & Ht & Hm & _)].
-    - destruct (i_ack_le V n H3 _ _ _ _ Hold) as (Ha & Hb).
+    intros H1 H2 H3a Hagl Hf Hstep t w ldr m Hin.
+    pose proof (step_gext V n l n' H1 H2 Hf Hstep) as Hg.
+    destruct (new_ack_sound n l n' t w ldr m H2 H3a Hagl Hstep Hin) as [Hold|(_ & Ht & Hm & _)].
+    - destruct (i_ack_le n H3a _ _ _ _ Hold) as (Ha & Hb).
       pose proof (step_term_mono V n l n' w Hstep). pose proof (llog_len_gext n n' t Hg). lia.
     - lia.
   Qed.
 
-  Lemma I_ack_node_step n l n' : inv1 n -> inv2 n -> inv3 n -> step n l n' -> I_ack_node n'.
+  Lemma I_ack_node_step n l n' :
+    inv1 n -> inv2 n -> inv3a n -> agl n -> fresh n l -> step n l n' -> I_ack_node n'.
   Proof.
-    intros H1 H2 H3 Hstep t w k (ldr & m & Hkm & Hin).
-    pose proof (step_gext V V_nodup n l n' H1 H2 Hstep) as Hg.
-    destruct (new_ack_sound n l n' t w ldr m H1 H2 H3 Hstep Hin) as [Hold|(_ & _ & _ & Hag)].
+    intros H1 H2 H3a Hagl Hf Hstep t w k (ldr & m & Hkm & Hin).
+    pose proof (step_gext V n l n' H1 H2 Hf Hstep) as Hg.
+    destruct (new_ack_sound n l n' t w ldr m H2 H3a Hagl Hstep Hin) as [Hold|(_ & _ & _ & Hag)].
     2:{ left. eapply agree_le; eauto. }
     assert (Hack : acked n t w k) by (exists ldr, m; auto).
-    pose proof (acked_len n t w k (i_ack_le V n H3) Hack) as Hklen.
+    pose proof (acked_len n t w k (i_ack_le n H3a) Hack) as Hklen.
     pose proof (step_term_mono V n l n' w Hstep) as Hmono.
     assert (Hblame : forall T, blamed n t k T -> T <= term (nodes n' w) ->
                                blamed n' t k (term (nodes n' w))).
@@ -254,14 +243,14 @@ Section Commit.
     destruct (step_log_cases n l n' w Hstep)
       as [(e & He)|[(T & ldr' & prev & pt & ents & lc & Hae & HT & HT' & Hpt & Hta)
                    |(m0 & Hm0 & _ & Hacks)]].
-    - destruct (i_ack_node V n H3 t w k Hack) as [Hag|Hb]; [left | right; eauto].
+    - destruct (i_ack_node n H3a t w k Hack) as [Hag|Hb]; [left | right; eauto].
       rewrite He. apply (agree_gext_r n n' k _ t Hg Hklen).
       apply agree_ext_l; [exact Hag|]. apply agree_sym in Hag. eapply agree_len; eauto.
-    - destruct (ae_overwrite n w T ldr' prev pt ents lc _ t k H1 H2 H3 Hae HT Hpt Hta Hack)
+    - destruct (ae_overwrite n w T ldr' prev pt ents lc _ t k H2 H3a Hae HT Hpt Hta Hack)
         as [Hag|Hb].
       + left. now apply (agree_gext_r n n' k _ t Hg Hklen).
       + right. apply (Hblame T Hb). lia.
-    - destruct (i_ack_node V n H3 t w k Hack) as [Hag|Hb]; [left | right; eauto].
+    - destruct (i_ack_node n H3a t w k Hack) as [Hag|Hb]; [left | right; eauto].
       rewrite Hm0. apply (agree_gext_r n n' k _ t Hg Hklen).
       eapply agree_trans; [|exact Hag]. apply agree_firstn.
       pose proof (acks_le_spec _ _ _ _ _ _ Hacks Hold). lia.
@@ -269,7 +258,7 @@ Section Commit.
 
   (* what handling a matching AE does to the log, relative to hcommit *)
   Lemma handle_ae_hcommit n w ldr prev ents lc l' :
-    inv1 n -> inv2 n -> inv3 n ->
+    inv2 n -> agl n ->
     In (AE (term (nodes n w)) ldr prev (term_at (log (nodes n w)) prev) ents lc) (msgs n) ->
     try_append (log (nodes n w)) (commit (nodes n w)) prev ents = Some l' ->
     let T := term (nodes n w) in
@@ -278,9 +267,9 @@ Section Commit.
     agree (prev + length ents) l' (llog n T) /\
     prev + length ents <= length l' /\ prev + length ents <= length (llog n T).
   Proof.
-    intros H1 H2 H3 Hae Hta T.
+    intros H2 Hagl Hae Hta T.
     destruct (i_ae n H2 _ _ _ _ _ _ Hae) as (Hlead & Hlen & _).
-    destruct (hcommit_agrees_leader n w T H1 H2 H3 eq_refl Hlead) as (Hag & Hhl).
+    destruct (Hagl w T eq_refl Hlead) as (Hag & Hhl).
     pose proof (handle_ae_keeps n T ldr prev _ ents lc _ _ l' _ H2 Hae (i_log_ok n H2 w) eq_refl
                                 Hta Hag Hhl) as Hk.
     destruct (handle_ae_log n _ _ _ _ _ _ _ _ _ H2 Hae (i_log_ok n H2 w) eq_refl Hta) as (_ & Hm).
@@ -292,16 +281,16 @@ Section Commit.
   Qed.
 
   Lemma I_commit_bounds_step n l n' :
-    inv1 n -> inv2 n -> inv3 n -> step n l n' -> I_commit_bounds n'.
+    inv1 n -> inv2 n -> inv3a n -> agl n -> step n l n' -> I_commit_bounds n'.
   Proof.
-    intros H1 H2 H3 Hstep w.
-    pose proof (i_commit_bounds V n H3 w) as Hold.
-    pose proof (i_role_term V n H1) as Hrt.
+    intros H1 H2 H3a Hagl Hstep w.
+    pose proof (i_commit_bounds n H3a w) as Hold.
+    pose proof (i_role_term n H1) as Hrt.
     inv_step Hstep; simp_upd; auto; try lia.
     - rewrite app_length. simpl. lia.
     - rewrite app_length. simpl. lia.
     - match goal with Hae : In (AE _ _ _ _ _ _) _, Hta : try_append _ _ _ _ = _ |- _ =>
-        destruct (handle_ae_hcommit n _ _ _ _ _ _ H1 H2 H3 Hae Hta) as (_ & Ha & _ & Hb & _) end.
+        destruct (handle_ae_hcommit n _ _ _ _ _ _ H2 Hagl Hae Hta) as (_ & Ha & _ & Hb & _) end.
       lia.
     - match goal with Ht : term_at _ _ = term (nodes n ?i), Hr : role _ = Leader |- _ =>
         assert (1 <= term (nodes n i)) by (apply Hrt; congruence);
@@ -310,13 +299,77 @@ Section Commit.
     - rewrite firstn_length. lia.
   Qed.
 
-  Lemma I_hcommit_step n l n' : inv1 n -> inv2 n -> inv3 n -> step n l n' -> I_hcommit V n'.
+  Lemma I_vote_pair_step n l n' :
+    inv1 n -> inv2 n -> inv3a n -> agl n -> fresh n l -> step n l n' -> I_vote_pair n'.
   Proof.
-    intros H1 H2 H3 Hstep w.
-    pose proof (step_gext V V_nodup n l n' H1 H2 Hstep) as Hg.
-    pose proof (cprefix_gext V n n' _ _ _ Hg (i_hcommit V n H3 w)) as Hold.
-    pose proof (i_commit_bounds V n H3 w) as Hb.
-    pose proof (i_role_term V n H1) as Hrt.
+    intros H1 H2 H3a Hagl Hf Hstep T w c vl t k Hvote Hack Hlt.
+    pose proof (step_gext V n l n' H1 H2 Hf Hstep) as Hg.
+    assert (Hn : acked n t w k /\ (agree k vl (llog n t) \/ blamed n t k T)).
+    { destruct (new_vote_sound n l n' T w c vl Hstep Hvote) as [Hvold|(-> & HT & Hacks & _)].
+      - destruct Hack as (ldr & m & Hkm & Hin).
+        destruct (new_ack_sound n l n' t w ldr m H2 H3a Hagl Hstep Hin) as [Hold|(Ht & _)].
+        + assert (Hack : acked n t w k) by (exists ldr, m; auto).
+          split; [exact Hack|]. eapply (i_vote_pair n H3a); eauto.
+        + pose proof (i_vote_le n H1 _ _ _ _ Hvold). lia.
+      - pose proof (Hacks _ _ _ Hack) as Hack'. split; [exact Hack'|].
+        destruct (i_ack_node n H3a t w k Hack') as [Hag|Hb]; [now left|].
+        right. eapply blamed_mono; eauto. }
+    destruct Hn as (Hack' & Hn).
+    pose proof (acked_len n t w k (i_ack_le n H3a) Hack') as Hklen.
+    destruct Hn as [Hag|Hb].
+    - left. now apply (agree_gext_r n n' k _ t Hg Hklen).
+    - right. now apply (blamed_gext n n' t k T Hg Hklen).
+  Qed.
+
+  Lemma I_vote_utd_step n l n' : inv3a n -> step n l n' -> I_vote_utd n'.
+  Proof.
+    intros H3a Hstep T w c vl Hvote.
+    destruct (new_vote_sound n l n' T w c vl Hstep Hvote) as [Hvold|(_ & _ & _ & Hrv)].
+    - destruct (i_vote_utd n H3a _ _ _ _ Hvold) as (li & lt & Hrv & Hu).
+      exists li, lt. split; [|exact Hu]. eapply step_msgs_incl; eauto.
+    - exact Hrv.
+  Qed.
+
+  Lemma I_rv_step n l n' : inv3a n -> step n l n' -> I_rv n'.
+  Proof.
+    intros H3a Hstep T c li lt Hin.
+    pose proof (i_rv n H3a T c li lt) as Hold.
+    pose proof (step_term_mono V n l n' c Hstep) as Hmono.
+    inv_step Hstep; msg_cases Hin; simp_upd;
+      try (split; [lia|]; intros; split; reflexivity);
+      try specialize (Hold Hin); try destruct Hold as (Ho1 & Ho2);
+      (split; [simpl in *; lia|]); intros Ht Hr; auto; try discriminate; try lia.
+  Qed.
+
+  Lemma inv3a_step n l n' :
+    inv1 n -> inv2 n -> inv3a n -> agl n -> fresh n l -> step n l n' -> inv3a n'.
+  Proof.
+    intros H1 H2 H3a Hagl Hf Hstep. constructor.
+    - eapply I_commit_bounds_step; eauto.
+    - eapply I_ack_le_step; eauto.
+    - eapply I_ack_node_step; eauto.
+    - eapply I_vote_pair_step; eauto.
+    - eapply I_vote_utd_step; eauto.
+    - eapply I_rv_step; eauto.
+  Qed.
+
+  Lemma inv3a_init : inv3a (init).
+  Proof.
+    constructor; red; simpl; intros; try contradiction; try discriminate; auto.
+    destruct H as (ldr & m & _ & []).
+  Qed.
+
+  (* ---- preservation: the quorum part, for the fixed voter set V ---- *)
+
+  Lemma I_hcommit_step n l n' :
+    inv1 n -> inv2 n -> inv3a n -> inv3b n -> fresh n l -> step n l n' -> I_hcommit V n'.
+  Proof.
+    intros H1 H2 H3a H3b Hf Hstep w.
+    pose proof (agl_fixed V n H2 H3a H3b) as Hagl.
+    pose proof (step_gext V n l n' H1 H2 Hf Hstep) as Hg.
+    pose proof (cprefix_gext V n n' _ _ _ Hg (i_hcommit V n H3b w)) as Hold.
+    pose proof (i_commit_bounds n H3a w) as Hb.
+    pose proof (i_role_term n H1) as Hrt.
     inv_step Hstep; simp_upd; auto.
     - (* Timeout *) eapply cprefix_tmax; eauto.
     - (* HigherTerm *) eapply cprefix_tmax; eauto. lia.
@@ -324,8 +377,8 @@ Section Commit.
     - (* Propose *) eapply cprefix_agree; eauto. apply agree_app_l. lia.
     - (* HandleAE *)
       match goal with Hae : In (AE _ _ _ _ _ _) _, Hta : try_append _ _ _ _ = _ |- _ =>
-        destruct (handle_ae_hcommit n _ _ _ _ _ _ H1 H2 H3 Hae Hta) as (Hk & _ & Hm & _ & Hml);
-        pose proof (i_ae_commit V n H3 _ _ _ _ _ _ Hae) as Hlc end.
+        destruct (handle_ae_hcommit n _ _ _ _ _ _ H2 Hagl Hae Hta) as (Hk & _ & Hm & _ & Hml);
+        pose proof (i_ae_commit V n H3b _ _ _ _ _ _ Hae) as Hlc end.
       match goal with |- cprefix _ _ _ (Nat.max ?hc (Nat.max ?c (Nat.min ?lc ?m))) _ =>
         destruct (Nat.le_gt_cases (Nat.min lc m) hc) as [Hle|Hgt];
         [ replace (Nat.max hc (Nat.max c (Nat.min lc m))) with hc by lia
@@ -354,101 +407,63 @@ Section Commit.
         [ replace (Nat.max hc (Nat.max cm c)) with hc by lia; exact Hold
         | replace (Nat.max hc (Nat.max cm c)) with c by lia ] end.
       match goal with Hhb : In (HB _ _ _ _) _ |- _ =>
-        destruct (i_hb V n H3 _ _ _ _ Hhb) as [->|(Hack & Hc)]; [lia|] end.
+        destruct (i_hb V n H3b _ _ _ _ Hhb) as [->|(Hack & Hc)]; [lia|] end.
       apply (cprefix_gext V n _ _ _ _ Hg).
       eapply cprefix_agree; [exact Hc|].
-      destruct (i_ack_node V n H3 _ _ _ Hack) as [Hag|(U & HU & _)]; [exact Hag | lia].
+      destruct (i_ack_node n H3a _ _ _ Hack) as [Hag|(U & HU & _)]; [exact Hag | lia].
     - (* Restart *) eapply cprefix_agree; eauto. apply agree_firstn. lia.
   Qed.
 
-  Lemma I_ae_commit_step n l n' : inv1 n -> inv2 n -> inv3 n -> step n l n' -> I_ae_commit V n'.
+  Lemma I_ae_commit_step n l n' :
+    inv1 n -> inv2 n -> inv3a n -> inv3b n -> fresh n l -> step n l n' -> I_ae_commit V n'.
   Proof.
-    intros H1 H2 H3 Hstep t ldr prev pt ents lc Hin.
-    pose proof (step_gext V V_nodup n l n' H1 H2 Hstep) as Hg.
+    intros H1 H2 H3a H3b Hf Hstep t ldr prev pt ents lc Hin.
+    pose proof (step_gext V n l n' H1 H2 Hf Hstep) as Hg.
     apply (cprefix_gext_llog V n n' _ _ Hg).
-    pose proof (i_ae_commit V n H3 t ldr prev pt ents lc) as Hold.
+    pose proof (i_ae_commit V n H3b t ldr prev pt ents lc) as Hold.
     inv_step Hstep; msg_cases Hin; auto.
     rewrite (i_leader_log n H2 ldr) by assumption.
-    eapply cprefix_le; [apply (i_hcommit V n H3 ldr)|].
-    pose proof (i_commit_bounds V n H3 ldr). lia.
+    eapply cprefix_le; [apply (i_hcommit V n H3b ldr)|].
+    pose proof (i_commit_bounds n H3a ldr). lia.
   Qed.
 
-  Lemma I_hb_step n l n' : inv1 n -> inv2 n -> inv3 n -> step n l n' -> I_hb V n'.
+  Lemma I_hb_step n l n' :
+    inv1 n -> inv2 n -> inv3a n -> inv3b n -> fresh n l -> step n l n' -> I_hb V n'.
   Proof.
-    intros H1 H2 H3 Hstep t ldr to c Hin.
-    pose proof (step_gext V V_nodup n l n' H1 H2 Hstep) as Hg.
+    intros H1 H2 H3a H3b Hf Hstep t ldr to c Hin.
+    pose proof (step_gext V n l n' H1 H2 Hf Hstep) as Hg.
     assert (Hn : c = 0 \/ (acked n t to c /\ cprefix V n t c (llog n t))).
-    { pose proof (i_hb V n H3 t ldr to c) as Hold.
+    { pose proof (i_hb V n H3b t ldr to c) as Hold.
       inv_step Hstep; msg_cases Hin; auto.
       match goal with H : _ = 0 \/ _ |- _ => destruct H as [->|Hex]; [now left | right] end.
       split; [now apply existsb_acked|].
       rewrite (i_leader_log n H2 ldr) by assumption.
-      eapply cprefix_le; [apply (i_hcommit V n H3 ldr)|].
-      pose proof (i_commit_bounds V n H3 ldr). lia. }
+      eapply cprefix_le; [apply (i_hcommit V n H3b ldr)|].
+      pose proof (i_commit_bounds n H3a ldr). lia. }
     destruct Hn as [->|(Ha & Hc)]; [now left | right]. split.
     - eapply acked_mono; [apply Hg | exact Ha].
     - now apply (cprefix_gext_llog V n n' _ _ Hg).
   Qed.
 
-  Lemma I_vote_pair_step n l n' : inv1 n -> inv2 n -> inv3 n -> step n l n' -> I_vote_pair n'.
-  Proof.
-    intros H1 H2 H3 Hstep T w c vl t k Hvote Hack Hlt.
-    pose proof (step_gext V V_nodup n l n' H1 H2 Hstep) as Hg.
-    assert (Hn : acked n t w k /\ (agree k vl (llog n t) \/ blamed n t k T)).
-    { destruct (new_vote_sound n l n' T w c vl Hstep Hvote) as [Hvold|(-> & HT & Hacks & _)].
-      - destruct Hack as (ldr & m & Hkm & Hin).
-        destruct (new_ack_sound n l n' t w ldr m H1 H2 H3 Hstep Hin) as [Hold|(Ht & _)].
-        + assert (Hack : acked n t w k) by (exists ldr, m; auto).
-          split; [exact Hack|]. eapply (i_vote_pair V n H3); eauto.
-        + pose proof (i_vote_le V n H1 _ _ _ _ Hvold). lia.
-      - pose proof (Hacks _ _ _ Hack) as Hack'. split; [exact Hack'|].
-        destruct (i_ack_node V n H3 t w k Hack') as [Hag|Hb]; [now left|].
-        right. eapply blamed_mono; eauto. }
-    destruct Hn as (Hack' & Hn).
-    pose proof (acked_len n t w k (i_ack_le V n H3) Hack') as Hklen.
-    destruct Hn as [Hag|Hb].
-    - left. now apply (agree_gext_r n n' k _ t Hg Hklen).
-    - right. now apply (blamed_gext n n' t k T Hg Hklen).
-  Qed.
-
-  Lemma I_vote_utd_step n l n' : inv1 n -> inv2 n -> inv3 n -> step n l n' -> I_vote_utd n'.
-  Proof.
-    intros H1 H2 H3 Hstep T w c vl Hvote.
-    destruct (new_vote_sound n l n' T w c vl Hstep Hvote) as [Hvold|(_ & _ & _ & Hrv)].
-    - destruct (i_vote_utd V n H3 _ _ _ _ Hvold) as (li & lt & Hrv & Hu).
-      exists li, lt. split; [|exact Hu]. eapply step_msgs_incl; eauto.
-    - exact Hrv.
-  Qed.
-
-  Lemma I_rv_step n l n' : inv1 n -> inv2 n -> inv3 n -> step n l n' -> I_rv n'.
-  Proof.
-    intros H1 H2 H3 Hstep T c li lt Hin.
-    pose proof (i_rv V n H3 T c li lt) as Hold.
-    pose proof (step_term_mono V n l n' c Hstep) as Hmono.
-    inv_step Hstep; msg_cases Hin; simp_upd;
-      try (split; [lia|]; intros; split; reflexivity);
-      try specialize (Hold Hin); try destruct Hold as (Ho1 & Ho2);
-      (split; [simpl in *; lia|]); intros Ht Hr; auto; try discriminate; try lia.
-  Qed.
-
   (* an already elected leader keeps its witness quorum *)
   Lemma elected_old n l n' T c :
-    inv1 n -> inv2 n -> inv3 n -> step n l n' -> lead n T = Some c ->
+    inv1 n -> inv2 n -> inv3a n -> inv3b n -> fresh n l -> step n l n' -> lead n T = Some c ->
     exists Q, is_quorum V Q /\ forall w, In w Q ->
       voted_msg n' T w c /\
       forall t k, t < T -> 1 <= k -> acked n' t w k -> term_at (llog n' t) k = t ->
                   agree k (llog0 n' T) (llog n' t) \/ blamed n' t k (T - 1).
   Proof.
-    intros H1 H2 H3 Hstep Hl.
-    pose proof (step_gext V V_nodup n l n' H1 H2 Hstep) as Hg.
-    destruct (i_elected V n H3 T c Hl) as (Q & HQ & HQw).
+    intros H1 H2 H3a H3b Hf Hstep Hl.
+    pose proof (agl_fixed V n H2 H3a H3b) as Hagl.
+    pose proof (step_gext V n l n' H1 H2 Hf Hstep) as Hg.
+    destruct (i_elected V n H3b T c Hl) as (Q & HQ & HQw).
     exists Q. split; [exact HQ|]. intros w Hw. destruct (HQw w Hw) as (Hv & Hp).
     split; [eapply voted_msg_mono; [apply Hg | exact Hv]|].
     intros t k Hlt Hk (ldr & m & Hkm & Hin) Hterm.
-    destruct (new_ack_sound n l n' t w ldr m H1 H2 H3 Hstep Hin) as [Hold|(Ht & _)].
-    2:{ destruct Hv as (vl & Hv). pose proof (i_vote_le V n H1 _ _ _ _ Hv). lia. }
+    destruct (new_ack_sound n l n' t w ldr m H2 H3a Hagl Hstep Hin) as [Hold|(Ht & _)].
+    2:{ destruct Hv as (vl & Hv). pose proof (i_vote_le n H1 _ _ _ _ Hv). lia. }
     assert (Hack : acked n t w k) by (exists ldr, m; auto).
-    pose proof (acked_len n t w k (i_ack_le V n H3) Hack) as Hklen.
+    pose proof (acked_len n t w k (i_ack_le n H3a) Hack) as Hklen.
     rewrite (term_at_gext n n' t k Hg Hklen) in Hterm.
     assert (Hl0 : llog0 n' T = llog0 n T).
     { destruct Hg as (_ & _ & _ & Hg4). apply Hg4. congruence. }
@@ -458,15 +473,17 @@ Section Commit.
     - right. now apply (blamed_gext n n' t k _ Hg Hklen).
   Qed.
 
-  Lemma I_elected_step n l n' : inv1 n -> inv2 n -> inv3 n -> step n l n' -> I_elected V n'.
+  Lemma I_elected_step n l n' :
+    inv1 n -> inv2 n -> inv3a n -> inv3b n -> fresh n l -> step n l n' -> I_elected V n'.
   Proof.
-    intros H1 H2 H3 Hstep T c Hl'.
+    intros H1 H2 H3a H3b Hf Hstep T c Hl'.
     destruct (lead n T) as [c0|] eqn:Hl.
-    { pose proof (step_lead_mono V V_nodup n l n' T c0 H1 Hstep Hl) as Hl2.
+    { pose proof (step_lead_mono V n l n' T c0 Hf Hstep Hl) as Hl2.
       assert (c0 = c) by congruence. subst c0.
       eapply elected_old; eauto. }
-    pose proof (step_gext V V_nodup n l n' H1 H2 Hstep) as Hg.
-    pose proof (fun t w ldr m => new_ack_sound n l n' t w ldr m H1 H2 H3 Hstep) as Hnew.
+    pose proof (agl_fixed V n H2 H3a H3b) as Hagl.
+    pose proof (step_gext V n l n' H1 H2 Hf Hstep) as Hg.
+    pose proof (fun t w ldr m => new_ack_sound n l n' t w ldr m H2 H3a Hagl Hstep) as Hnew.
     inv_step Hstep; try congruence.
     (* BecomeLeader i at T0 = term i *)
     simp_updg; [|congruence]. injection Hl' as <-.
@@ -477,10 +494,10 @@ Section Commit.
     assert (Hne : t <> term (nodes n i)) by lia.
     rewrite (updg_neq _ _ _ _ Hne) in *.
     destruct (Hnew t w ldr m Hin) as [Hold|(Ht & _)].
-    2:{ pose proof (i_vote_le V n H1 _ _ _ _ Hv). lia. }
+    2:{ pose proof (i_vote_le n H1 _ _ _ _ Hv). lia. }
     assert (Hack : acked n t w k) by (exists ldr, m; auto).
-    pose proof (acked_len n t w k (i_ack_le V n H3) Hack) as Hklen.
-    destruct (elect_core n i w vl t k H1 H2 H3 H Hl Hv Hlt Hk Hack Hterm) as [(Hag & HkL)|Hb].
+    pose proof (acked_len n t w k (i_ack_le n H3a) Hack) as Hklen.
+    destruct (elect_core n i w vl t k H2 H3a H Hl Hv Hlt Hk Hack Hterm) as [(Hag & HkL)|Hb].
     - left. now apply agree_ext_l.
     - right. destruct Hb as (U & HU & HlU & Hna).
       exists U. split; [exact HU|]. cbn [lead llog0 llog].
@@ -488,39 +505,53 @@ Section Commit.
       rewrite !(updg_neq _ _ _ _ HneU), (updg_neq _ _ _ _ Hne). split; assumption.
   Qed.
 
-  Lemma inv3_step n l n' : inv1 n -> inv2 n -> inv3 n -> step n l n' -> inv3 n'.
+  Lemma inv3b_step n l n' :
+    inv1 n -> inv2 n -> inv3a n -> inv3b n -> fresh n l -> step n l n' -> inv3b n'.
   Proof.
-    intros H1 H2 H3 Hstep. constructor.
-    - eapply I_commit_bounds_step; eauto.
+    intros H1 H2 H3a H3b Hf Hstep. constructor.
     - eapply I_hcommit_step; eauto.
     - eapply I_ae_commit_step; eauto.
     - eapply I_hb_step; eauto.
-    - eapply I_ack_le_step; eauto.
-    - eapply I_ack_node_step; eauto.
-    - eapply I_vote_pair_step; eauto.
-    - eapply I_vote_utd_step; eauto.
-    - eapply I_rv_step; eauto.
     - eapply I_elected_step; eauto.
   Qed.
 
-  Lemma inv3_init : inv3 (init).
+  Lemma inv3b_init : inv3b (init).
   Proof.
     constructor; red; simpl; intros; try contradiction; try discriminate; auto.
-    - now left.
-    - destruct H as (ldr & m & _ & []).
+    now left.
   Qed.
 
-  Record inv (n : net) : Prop := { inv_1 : inv1 n; inv_2 : inv2 n; inv_3 : inv3 n }.
+  (* ---- the whole invariant of stages 1 and 2 ---- *)
+
+  Record inv (n : net) : Prop := {
+    inv_1 : inv1 n;
+    inv_q : I_lead_quorum V n;
+    inv_2 : inv2 n;
+    inv_3a : inv3a n;
+    inv_3b : inv3b n
+  }.
 
   Lemma inv_init : inv init.
-  Proof. constructor; [apply inv1_init | apply inv2_init | apply inv3_init]. Qed.
+  Proof.
+    constructor; [apply inv1_init | intros t c H; discriminate | apply inv2_init
+                 | apply inv3a_init | apply inv3b_init].
+  Qed.
+
+  Lemma inv_fresh n l n' : inv n -> step n l n' -> fresh n l.
+  Proof. intros [H1 Hq H2 H3a H3b] Hstep. eapply fresh_fixed; eauto. Qed.
+
+  Lemma inv_agl n : inv n -> agl n.
+  Proof. intros [H1 Hq H2 H3a H3b]. now apply (agl_fixed V). Qed.
 
   Lemma inv_step n l n' : inv n -> step n l n' -> inv n'.
   Proof.
-    intros [H1 H2 H3] Hstep. constructor.
+    intros Hi Hstep. pose proof (inv_fresh n l n' Hi Hstep) as Hf.
+    pose proof (inv_agl n Hi) as Hagl. destruct Hi as [H1 Hq H2 H3a H3b]. constructor.
     - eapply inv1_step; eauto.
+    - eapply I_lead_quorum_step; eauto.
     - eapply inv2_step; eauto.
-    - eapply inv3_step; eauto.
+    - eapply inv3a_step; eauto.
+    - eapply inv3b_step; eauto.
   Qed.
 
   Lemma inv_steps n ls n' : inv n -> steps V n ls n' -> inv n'.
